@@ -5,10 +5,16 @@ import os
 import pickle
 import signal
 import struct
+import sys
 import time
 
 import numpy as np
 import z3
+
+try:
+    sys.set_int_max_str_digits(0)
+except AttributeError:
+    pass
 
 from . import scalar as S
 from .scalar import Q, SymBool, Unsupported, isb, bz
@@ -25,7 +31,10 @@ class Infeasible(Exception):
 def frac_of(v):
     """Fraction from a z3 numeral"""
     if z3.is_rational_value(v):
-        return Fraction(v.numerator_as_long(), v.denominator_as_long())
+        try:
+            return Fraction(v.numerator_as_long(), v.denominator_as_long())
+        except Exception:
+            return Fraction(v.as_string())
     if z3.is_int_value(v):
         return Fraction(v.as_long())
     if z3.is_algebraic_value(v):
